@@ -537,6 +537,8 @@ func ruleTWIRE(p *Program, r *Reporter) {
 		{"cache", "", "NewTableCache", "Create", 3, true, "pre-loaded data is checked against the schema indexes"},
 		{"client", "api", "WhereAll", "conditionFromExplicitConditions", 1, true, "WhereAll means every condition must hold"},
 		{"client", "api", "WhereAny", "conditionFromExplicitConditions", 1, false, "WhereAny means any condition may hold"},
+		{"client", "ovsdbClient", "isEndpointLeader", "transact", 3, true, "the leader check runs before the inactivity-probe goroutine exists: it must not write to the unbuffered trafficSeen channel"},
+		{"client", "ovsdbClient", "Transact", "transact", 3, false, "user transactions signal traffic to the inactivity probe"},
 	}
 	for _, w := range wants {
 		root := p.Fn(w.callerPkg, w.callerRecv, w.caller)
